@@ -3,7 +3,7 @@
    token stream, operands parsed by p_cast_expression), build exactly a tree of the stratified C
    grammar (ClimbProofs.D) over the operator tokens they consumed and the cast-expressions parsed
    between them -- for every token stream, every state and every fuel. *)
-From Coq Require Import List NArith Bool Arith Lia.
+From Coq Require Import List NArith ZArith Bool Arith Lia.
 Import ListNotations.
 From PV Require Import Regex Base LexTables ParserTables AstDefs AstSpec AstImpl PyRepr NodeModel ParserBase ParserDecl ParserMain ClimbProofs.
 Open Scope nat_scope.
@@ -59,31 +59,72 @@ Fixpoint to_node (t: tree) : node :=
           (match get_coord P (to_node l) with Some co => co | None => None end)
   end.
 
-(* Seq s l s': from state s the parser read, in order, the operator tokens and cast-expressions
-   of l and arrived in state s' (peeks in between are silent) *)
-Inductive Seq : pstate -> list (tok * node) -> pstate -> Prop :=
-| Seq_nil : forall s, Seq s [] s
-| Seq_peek : forall s x s1 l s', peek P s = Ok (x, s1) -> Seq s1 l s' -> Seq s l s'
-| Seq_cons : forall s t s1 s2 f a s3 l s',
+(* SeqT s l n s': from state s the parser read, in order, the operator tokens and cast-expressions
+   of l and arrived in state s' (peeks in between are silent); n is the number of token reads
+   (_TokenStream.next() calls, speculative ones included) spent INSIDE the operand runs *)
+Inductive SeqT : pstate -> list (tok * node) -> Z -> pstate -> Prop :=
+| Seq_nil : forall s, SeqT s [] 0%Z s
+| Seq_peek : forall s x s1 l n s', peek P s = Ok (x, s1) -> SeqT s1 l n s' -> SeqT s l n s'
+| Seq_cons : forall s t s1 s2 f a s3 l n s',
     peek P s = Ok (Some t, s1) -> prec_of (tk t) <> None -> advance P s1 = Ok (t, s2) ->
-    p_cast_expression P f s2 = Ok (a, s3) -> Seq s3 l s' -> Seq s ((t, a) :: l) s'.
+    p_cast_expression P f s2 = Ok (a, s3) -> SeqT s3 l n s' ->
+    SeqT s ((t, a) :: l) (n + (Z.of_N (ticks P s3) - Z.of_N (ticks P s2)))%Z s'.
+Definition Seq (s: pstate) (l: list (tok * node)) (s': pstate) : Prop := exists n, SeqT s l n s'.
 
-Lemma Seq_app : forall s l1 s1, Seq s l1 s1 -> forall l2 s2, Seq s1 l2 s2 -> Seq s (l1 ++ l2) s2.
+Lemma SeqT_app : forall s l1 n1 s1, SeqT s l1 n1 s1 -> forall l2 n2 s2, SeqT s1 l2 n2 s2 -> SeqT s (l1 ++ l2) (n1 + n2)%Z s2.
 Proof.
-  intros s l1 s1 H. induction H as [s|s x sa l s' Hp H IH|s t sa sb f a sc l s' Hp Hprec Ha Hc H IH]; intros l2 s2 H2.
+  intros s l1 n1 s1 H. induction H as [s|s x sa l n s' Hp H IH|s t sa sb f a sc l n s' Hp Hprec Ha Hc H IH]; intros l2 n2 s2 H2.
   - exact H2.
   - eapply Seq_peek; [exact Hp|]. apply IH. exact H2.
-  - cbn [app]. eapply Seq_cons; eauto.
+  - cbn [app]. replace (n + (Z.of_N (ticks P sc) - Z.of_N (ticks P sb)) + n2)%Z with ((n + n2) + (Z.of_N (ticks P sc) - Z.of_N (ticks P sb)))%Z by lia.
+    eapply Seq_cons; eauto.
 Qed.
+Lemma Seq_app : forall s l1 s1, Seq s l1 s1 -> forall l2 s2, Seq s1 l2 s2 -> Seq s (l1 ++ l2) s2.
+Proof. intros s l1 s1 [n1 H1] l2 s2 [n2 H2]. exists (n1 + n2)%Z. eapply SeqT_app; eauto. Qed.
 
-Lemma Seq_head : forall s o a l s', Seq s ((o, a) :: l) s' -> exists s1, peek P s = Ok (Some o, s1) /\ prec_of (tk o) <> None.
+Lemma SeqT_head : forall s o a l n s', SeqT s ((o, a) :: l) n s' -> exists s1, peek P s = Ok (Some o, s1) /\ prec_of (tk o) <> None.
 Proof.
-  intros s o a l s' H. remember ((o, a) :: l) as L eqn:EL. revert o a l EL.
-  induction H as [s|s x sa l0 s' Hp H IH|s t sa sb f a0 sc l0 s' Hp Hprec Ha Hc H IH]; intros o a l EL.
+  intros s o a l n s' H. remember ((o, a) :: l) as L eqn:EL. revert o a l EL.
+  induction H as [s|s x sa l0 n s' Hp H IH|s t sa sb f a0 sc l0 n s' Hp Hprec Ha Hc H IH]; intros o a l EL.
   - discriminate.
   - destruct (IH _ _ _ EL) as [s1 [H1 H2]]. pose proof (peek_idem _ _ _ Hp) as Hi. rewrite Hi in H1. injection H1 as -> _.
     exists sa. split; [exact Hp|exact H2].
   - injection EL as -> -> ->. exists sa. split; assumption.
+Qed.
+Lemma Seq_head : forall s o a l s', Seq s ((o, a) :: l) s' -> exists s1, peek P s = Ok (Some o, s1) /\ prec_of (tk o) <> None.
+Proof. intros s o a l s' [n H]. eapply SeqT_head; eauto. Qed.
+
+(* token reads: peeking reads nothing, advancing reads one *)
+Lemma peek_ticks : forall (s s1: pstate) x, peek P s = Ok (x, s1) -> ticks P s1 = ticks P s.
+Proof.
+  intros s s1 x H. unfold peek, peek_k, fill, fill_aux, bind, get, ret in H.
+  destruct (after P s) as [|y r] eqn:Ea.
+  - cbn in H. unfold deliver1 in H.
+    destruct (raw P s) as [|[k v p fa|msg p f|] rw] eqn:Er; cbn in H; try discriminate.
+    + rewrite Ea in H. cbn in H. injection H as _ <-. reflexivity.
+    + rewrite Ea in H.
+      destruct (kind_eqb k K_LBRACE); [|destruct (kind_eqb k K_RBRACE); [destruct (scopes P s) as [|? [|? ?]]; try discriminate|]];
+      cbn in H; injection H as _ <-; reflexivity.
+  - cbn in H. rewrite Ea in H. cbn in H. injection H as _ <-. reflexivity.
+Qed.
+Lemma advance_ticks : forall (s s1 s2: pstate) x t, peek P s = Ok (x, s1) -> advance P s1 = Ok (t, s2) -> ticks P s2 = (ticks P s1 + 1)%N.
+Proof.
+  intros s s1 s2 x t Hp Ha. destruct (peek_after _ _ _ Hp) as [r Hr].
+  unfold advance, next_tok, bind, fill, fill_aux, get, ret in Ha. cbn in Ha. rewrite Hr in Ha. cbn in Ha. rewrite ?Hr in Ha.
+  cbn in Ha. destruct x as [x'|]; cbn in Ha.
+  - injection Ha as _ <-. reflexivity.
+  - unfold fail, cur_file, bind, get, ret in Ha. cbn in Ha. discriminate.
+Qed.
+
+(* the loops themselves read every operator token exactly once *)
+Lemma SeqT_ticks : forall s l n s', SeqT s l n s' ->
+  Z.of_N (ticks P s') = (Z.of_N (ticks P s) + Z.of_nat (length l) + n)%Z.
+Proof.
+  intros s l n s' H. induction H as [s|s x sa l n s' Hp H IH|s t sa sb f a sc l n s' Hp Hprec Ha Hc H IH].
+  - cbn. lia.
+  - rewrite IH, (peek_ticks _ _ _ Hp). reflexivity.
+  - rewrite IH. pose proof (peek_ticks _ _ _ Hp) as E1. pose proof (advance_ticks _ _ _ _ _ Hp Ha) as E2.
+    cbn [length]. rewrite E2, E1. lia.
 Qed.
 
 Definition st_head_le (q: nat) (s: pstate) : Prop :=
@@ -153,7 +194,7 @@ Proof.
               ret P (to_node L) s1 = Ok (t, s') ->
               exists l T, t = to_node T /\ Seq s l s' /\ D m L l T /\ st_head_lt m s').
     { intros why Hr. unfold ret in Hr. injection Hr as <- <-. exists [], L. repeat split.
-      - eapply Seq_peek; [exact Ep|apply Seq_nil].
+      - exists 0%Z. eapply Seq_peek; [exact Ep|apply Seq_nil].
       - constructor.
       - exact why. }
     destruct x as [t'|].
@@ -174,7 +215,7 @@ Proof.
            { cbn [to_node]. rewrite Eco. reflexivity. }
            rewrite Enode in H. apply IHc in H. destruct H as (l2 & T & -> & HS2 & HD2 & Hh2).
            exists ((t', rhs0) :: l1 ++ l2), T. repeat split.
-           ++ eapply Seq_cons; [exact Ep|congruence|exact Ea|exact Ec|]. eapply Seq_app; eauto.
+           ++ destruct (Seq_app _ _ _ HS1 _ _ HS2) as [n12 H12]. eexists. eapply Seq_cons; [exact Ep|congruence|exact Ea|exact Ec|exact H12].
            ++ change ((t', rhs0) :: l1 ++ l2) with (((t', rhs0) :: l1) ++ l2).
               assert (Hb: bprec t' = prec) by (unfold bprec; rewrite Eprec; reflexivity).
               eapply (compose node tok bprec); [exact HD2| | |].
@@ -193,7 +234,7 @@ Proof.
               ret P (to_node R0) s1 = Ok (t, s') ->
               exists l T, t = to_node T /\ Seq s l s' /\ D (S p) R0 l T /\ st_head_le p s').
     { intros why Hr. unfold ret in Hr. injection Hr as <- <-. exists [], R0. repeat split.
-      - eapply Seq_peek; [exact Ep|apply Seq_nil].
+      - exists 0%Z. eapply Seq_peek; [exact Ep|apply Seq_nil].
       - constructor.
       - exact why. }
     destruct x as [t'|].
@@ -204,7 +245,7 @@ Proof.
            apply IHc in Ec. destruct Ec as (l1 & T1 & -> & HS1 & HD1 & Hh1).
            apply IHi in H. destruct H as (l2 & T & -> & HS2 & HD2 & Hh2).
            exists (l1 ++ l2), T. repeat split.
-           ++ eapply Seq_peek; [exact Ep|]. eapply Seq_app; eauto.
+           ++ destruct (Seq_app _ _ _ HS1 _ _ HS2) as [n12 H12]. exists n12. eapply Seq_peek; [exact Ep|exact H12].
            ++ eapply (compose node tok bprec); [exact HD2|exact HD1|lia|].
               eapply head_le_of_state; [|exact HS2]. intros o sx q Hp Ho. specialize (Hh1 o sx q Hp Ho). lia.
            ++ exact Hh2.
@@ -230,5 +271,15 @@ Proof.
   - intros T' HD'. eapply D_unique; eassumption.
   - intros o s1 Hp. destruct (prec_of (tk o)) as [p|] eqn:E; [|reflexivity].
     specialize (Hh o s1 p Hp E). lia.
+Qed.
+
+(* C16: the precedence-climbing loops never re-read a token.  The token reads of a whole binary
+   expression = one per operator + what the operand runs (p_cast_expression) spend themselves. *)
+Theorem binary_expression_cost : forall f lhs0 s t s',
+  p_binary_climb P f 0 lhs0 s = Ok (t, s') ->
+  exists l n, SeqT s l n s' /\ Z.of_N (ticks P s') = (Z.of_N (ticks P s) + Z.of_nat (length l) + n)%Z.
+Proof.
+  intros f lhs0 s t s' H. destruct (binary_expression_refines _ _ _ _ _ H) as (l & T & _ & [n HS] & _).
+  exists l, n. split; [exact HS|apply SeqT_ticks; exact HS].
 Qed.
 End BR.
